@@ -339,7 +339,7 @@ func (e *Env) getSweep(l klevdb.Log, tag, what string) {
 func (e *Env) keyUniverse() [][]byte {
 	ks := append([][]byte{}, KeyUniverse...)
 	ks = append(ks, []byte("zz-absent"))
-	if !e.Cfg.SmallKeys {
+	if e.Cfg.LongKeys {
 		ks = append(ks, longKeys...)
 	}
 	ks = append(ks, CollidingAbsent...)
@@ -424,7 +424,12 @@ func (e *Env) keySweep(l klevdb.Log, tag, what string) {
 			}
 		}
 		// from every cursor offset: a prefix of the remaining matches
-		for c := int64(0); c <= m.Next; c++ {
+		cstep := int64(1)
+		if len(k) > 1024 {
+			// hashing a very long key costs more than the lookup: a handful of cursors
+			cstep = 1 + m.Next/5
+		}
+		for c := int64(0); c <= m.Next; c += cstep {
 			max := int64(1 + (int(c)+e.Step)%3)
 			no, msgs, err := l.ConsumeByKey(k, c, max)
 			if err != nil {
@@ -468,9 +473,12 @@ func offsOf(ms []Msg) []int64 {
 
 // classifyKey marks lookups where a different key with the same hash is live (evidence only).
 func (e *Env) classifyKey(k []byte, present bool) {
+	if len(k) > 1024 {
+		return
+	}
 	h := RefFNV1a64(k)
 	for _, x := range e.M.Live {
-		if !bytes.Equal(x.K, k) && RefFNV1a64(x.K) == h {
+		if len(x.K) <= 1024 && !bytes.Equal(x.K, k) && RefFNV1a64(x.K) == h {
 			e.flag("key-collision-live")
 			e.St.Inc("lookups_with_live_collision")
 			return
